@@ -82,6 +82,9 @@ def run(ctx):
     for i in range(ctx.budget(900, 40000)):
         r = rng.fork(i)
         text = descs.any_text(r)
+        if r.chance(1, 6):
+            # other line-ending conventions and stray control characters: the recorded original text is the input, verbatim
+            text = text.replace('\n', r.choice(['\r\n', '\r', '\n\r', '\r\n\t'])) if '\n' in text else text + r.choice(['\r\n', '\r', ' \r\n'])
         cfg = descs.valid_config(r)
         layout = r.choice([None, None, None, None] + gen.LAYOUTS + ['copy_all'])
         source = r.choice([None, 'doc 1', 'x'])
